@@ -629,9 +629,14 @@ func genCase(t *rapid.T, long bool) *Case {
 					k = dbh.FloatV(float32(i) / 2)
 				}
 			default:
-				k = dbh.StrV(fmt.Sprintf("k%05d", (seed>>8)%3000))
+				// keys of different lengths: the bytes used in a node then take every value, not only multiples of one entry size
+				padLen := int(seed>>20) % 41
+				if c.Kind == dbh.IdxBtree {
+					padLen = int(seed>>20) % 12
+				}
+				k = dbh.StrV(fmt.Sprintf("k%05d", (seed>>8)%3000) + strings.Repeat("p", padLen))
 				if c.Kind == dbh.IdxUniqSkip {
-					k = dbh.StrV(fmt.Sprintf("u%05d", i))
+					k = dbh.StrV(fmt.Sprintf("u%05d", i) + strings.Repeat("p", padLen))
 				}
 			}
 			c.Ops = append(c.Ops, Op{K: "ins", Key: &k, RID: [2]int64{int64(10 + i/300), int64(i % 300)}})
